@@ -47,26 +47,52 @@ Bad_NonEmptyHasCpus(S) ==
     {b.name : b \in {b \in Blns(S) : BCtrs(b) # {} /\ (BCpus(b) = {} \/ 1000 * Cardinality(BCpus(b)) < b.reqmilli)}}
 \* a member's allowed CPUs are exactly the balloon's CPUs plus its shared idle CPUs  (T: container -> cached cpuset;
 \* hyperthread hiding only ever removes sibling threads: then a non-empty subset is required)
-Bad_ToldIsCpusPlusShared(S, T, pinned) ==
+Bad_ToldIsCpusPlusShared(S, T, pinned, hide) ==
     {c \in pinned : \E b \in BalloonsOf(S, c) :
         LET want == BCpus(b) \cup BShared(b)
-        IN IF DefOf(S, b).hideht THEN ~(T[c] \subseteq want /\ T[c] # {}) ELSE T[c] # want}
+        IN IF hide[c] THEN ~(T[c] \subseteq want /\ T[c] # {}) ELSE T[c] # want}
+
+\* shared idle CPUs include every idle non-isolated CPU in the balloon's configured sharing scope
+\*   topo: set of records [cpu, pkg, die, node, core, isolated]
+SameDomain(level, a, b) ==
+    CASE level = "system"  -> TRUE
+      [] level = "package" -> a.pkg = b.pkg
+      [] level = "die"     -> a.pkg = b.pkg /\ a.die = b.die
+      [] level = "numa"    -> a.node = b.node
+      [] level = "core"    -> a.pkg = b.pkg /\ a.die = b.die /\ a.core = b.core
+      [] level = "thread"  -> a.cpu = b.cpu
+      [] OTHER -> FALSE
+Bad_SharedIdleCoversScope(S, topo) ==
+    LET idle == {t \in topo : t.cpu \in SetOfB(S.free) /\ ~t.isolated}
+    IN {b.name : b \in {b \in Blns(S) :
+            LET L == DefOf(S, b).shareidle
+                mine == {t \in topo : t.cpu \in BCpus(b)}
+            IN L \notin {"", "l2cache"} /\ \E t \in idle : (\E m \in mine : SameDomain(L, t, m)) /\ t.cpu \notin BShared(b)}}
+\* shared idle CPUs are never kernel-isolated
+Bad_SharedIdleIsolated(S, topo) == {b.name : b \in {b \in Blns(S) : \E t \in topo : t.isolated /\ t.cpu \in BShared(b)}}
 
 \* C09: with nothing alive only the pre-created balloons exist, at their configured minimum size, everything else idle
 BalloonNotPristine(S, S0) ==
     IF S0 = <<>> \/ S = <<>> THEN {}
-    ELSE {b.name : b \in {b \in Blns(S) : BCtrs(b) # {}}}
-         \cup {b.name : b \in {b \in Blns(S) : ~\E a \in Blns(S0) : a.name = b.name /\ Cardinality(BCpus(a)) = Cardinality(BCpus(b))}}
-         \cup {a.name : a \in {a \in Blns(S0) : ~\E b \in Blns(S) : a.name = b.name}}
-         \cup (IF Cardinality(SetOfB(S.free)) = Cardinality(SetOfB(S0.free)) THEN {} ELSE {"freeCpus"})
+    ELSE LET Count(X, d, n) == Cardinality({b \in Blns(X) : b.def = d /\ Cardinality(BCpus(b)) = n})
+             defs  == {b.def : b \in Blns(S) \cup Blns(S0)}
+             sizes == {Cardinality(BCpus(b)) : b \in Blns(S) \cup Blns(S0)}
+         IN {b.name : b \in {b \in Blns(S) : BCtrs(b) # {}}}
+            \* the same number of balloons of every type and size as right after configuration (instance numbers
+            \* may differ: which of several equal instances survives is not part of the property)
+            \cup {d \in defs : \E n \in sizes : Count(S, d, n) # Count(S0, d, n)}
+            \cup (IF Cardinality(SetOfB(S.free)) = Cardinality(SetOfB(S0.free)) THEN {} ELSE {"freeCpus"})
 
 \* all C02 state predicates over a snapshot, as (predicate, witness) pairs
-BalloonState(S, ctrs, view, live, world) ==
+BalloonState(S, ctrs, view, live, world, topo) ==
     IF S = <<>> THEN {}
     ELSE LET \* containers opted out with cpu.preserve are not handled by the policy at all and legitimately hold nothing
              managed == {c \in DOMAIN ctrs : ctrs[c].st \in {"created", "running"} /\ ~ctrs[c].pcpu /\ c \in live}
              pinned  == {c \in managed \cap BalloonMembers(S) : world.pincpu /\ ~ctrs[c].pcpu}
              T       == [c \in pinned |-> ctrs[c].res.cpus]
+             \* hyperthreads are hidden for a container by its effective annotation, else by its balloon type
+             hide    == [c \in pinned |-> IF "hideht" \in DOMAIN ctrs[c].ann THEN ctrs[c].ann.hideht = "true"
+                                           ELSE \E b \in BalloonsOf(S, c) : DefOf(S, b).hideht]
          IN {<<"Inv_BalloonsDisjoint", w>> : w \in Bad_BalloonsDisjoint(S)}
             \cup {<<"Inv_BalloonsWithinAllowed", w>> : w \in Bad_BalloonOutsideAllowed(S)}
             \cup {<<"Inv_FreeCpusAreUnowned", w>> : w \in Bad_FreeCpus(S)}
@@ -75,5 +101,7 @@ BalloonState(S, ctrs, view, live, world) ==
             \cup {<<"Inv_MinMaxCpus", w>> : w \in Bad_MinMaxCpus(S)}
             \cup {<<"Inv_MinMaxInstances", w>> : w \in Bad_MinMaxInstances(S)}
             \cup {<<"Inv_NonEmptyHasCpus", w>> : w \in Bad_NonEmptyHasCpus(S)}
-            \cup {<<"Inv_ToldIsCpusPlusShared", w>> : w \in Bad_ToldIsCpusPlusShared(S, T, pinned)}
+            \cup {<<"Inv_ToldIsCpusPlusShared", w>> : w \in Bad_ToldIsCpusPlusShared(S, T, pinned, hide)}
+            \cup {<<"Inv_SharedIdleCoversScope", w>> : w \in Bad_SharedIdleCoversScope(S, topo)}
+            \cup {<<"Inv_SharedIdleNotIsolated", w>> : w \in Bad_SharedIdleIsolated(S, topo)}
 =============================================================================
